@@ -621,6 +621,50 @@ def replay_file(path):
     return 1
 
 
+def selftest(pid):
+    """Thorough tier: the fixed mutants of /verif/mutants/<pid>.json (applied to a scratch copy of /repo/src, removed
+    afterwards) must each make the quick check report a violation; a surviving mutant means the machinery is blind
+    (exit 3, never a property violation).  The result is appended to the evidence file."""
+    import shutil
+    import subprocess
+    import tempfile
+    mf = os.path.join(ROOT, "mutants", f"{pid}.json")
+    if not os.path.exists(mf):
+        return 0
+    killed, missed = [], []
+    for m in json.load(open(mf)):
+        tmp = tempfile.mkdtemp(prefix="pyvc_selftest_")
+        try:
+            shutil.copytree(os.path.join(REPO, "src"), tmp + "/src", ignore=shutil.ignore_patterns("__pycache__"))
+            path = f"{tmp}/src/odfdo/{m['file']}"
+            src = open(path).read()
+            if src.count(m["old"]) != 1:
+                missed.append({"mutant": m, "reason": "mutation site not found (the source changed)"})
+                continue
+            open(path, "w").write(src.replace(m["old"], m["new"]))
+            env = dict(os.environ, PYVC_REPO=tmp, PYVC_OUT_DIR=tmp + "/out", PYVC_NO_SELFTEST="1",
+                       PYTHONPATH=tmp + "/src:" + ROOT)
+            p = subprocess.run([sys.executable, "-m", "pyvc.check", pid, "--tier", "quick"], env=env, cwd=ROOT,
+                               capture_output=True, text=True, timeout=3000)
+            if p.returncode == 1 and "VIOLATION" in p.stdout:
+                killed.append({"mutant": m["file"] + ": " + m["old"][:60] + " -> " + m["new"][:60],
+                               "first": [ln[:200] for ln in p.stdout.splitlines() if ln.startswith("VIOLATION")][:2]})
+            else:
+                missed.append({"mutant": m, "reason": f"quick check exit {p.returncode}"})
+        finally:
+            shutil.rmtree(tmp, ignore_errors=True)
+    ev = os.path.join(OUT, "evidence", f"{pid}.json")
+    d = json.load(open(ev))
+    d["coverage"]["mutants_killed"] = killed
+    d["coverage"]["mutants_missed"] = missed
+    json.dump(d, open(ev, "w"), indent=1, default=str)
+    print(f"{pid} selftest: {len(killed)} mutants killed, {len(missed)} missed")
+    if missed:
+        print(f"CRASH property={pid}: self-test mutant survived: {missed[0]}")
+        return 3
+    return 0
+
+
 def main(argv=None):
     argv = argv or sys.argv[1:]
     if not argv:
@@ -634,7 +678,10 @@ def main(argv=None):
         tier = argv[argv.index("--tier") + 1]
     seed = int(os.environ.get("VERIF_SEED", "0") or 0)
     try:
-        return run_property(pid, tier, seed)
+        rc = run_property(pid, tier, seed)
+        if rc == 0 and tier == "thorough" and REPO == "/repo" and not os.environ.get("PYVC_NO_SELFTEST"):
+            rc = selftest(pid)
+        return rc
     except Exception:  # noqa
         traceback.print_exc()
         print(f"CRASH property={pid}")
